@@ -57,6 +57,9 @@ func mkDeposits(e *L2Env, n int) []pendingDeposit {
 	for k := 1; k <= n; k++ {
 		u := e.Users[k%len(e.Users)]
 		d := pendingDeposit{seq: uint64(k), from: "l1sender" + strconv.Itoa(k%3), to: u, toStr: u.String(), amount: int64(1000 + k*k*17 + k), denom: []string{"uinit", "uusdc"}[k%2]}
+		if k%5 == 4 {
+			d.amount = 0 // an empty deposit (to an account that exists by then) is a deposit like any other: it takes its sequence
+		}
 		out = append(out, d)
 	}
 	return out
